@@ -40,6 +40,9 @@ func f6(a []string, b int) int { ran[12]++; return b + len(a) }
 func f7(a map[string]int, b []int) int { ran[13]++; return len(a) + len(b) }
 
 //go:noinline
+func f8(a int) (int, int) { ran[14]++; return a, a + 1 }
+
+//go:noinline
 func v0(va ...int) int { ran[5]++; return len(va) }
 
 //go:noinline
@@ -114,6 +117,7 @@ func init() {
 	add("f5", f5, &ran[4])
 	add("f6", f6, &ran[12])
 	add("f7", f7, &ran[13])
+	add("f8", f8, &ran[14])
 	add("v0", v0, &ran[5])
 	add("v1", v1, &ran[6])
 	add("v2", v2, &ran[7])
